@@ -764,3 +764,8 @@ mod tests {
         assert_eq!(result.unwrap_err().to_string(), "overflow");
     }
 }
+
+// verification hook: Kani harnesses kept outside the repository, compiled only by `cargo kani`
+#[cfg(kani)]
+#[path = "/verif/kani/inline/transaction_utils.rs"]
+mod verif_kani;
